@@ -375,6 +375,26 @@ func runC08(c *Ctx) {
 	checkAttrsValidatedAtDecode(c, "O7")
 	checkRequestConstructorErrorExamined(c, "O8")
 	checkShortInputIsReported(c, "O11")
+	// O12: a map the decoders consult (the registry of extended packet types) shares its struct with a mutex: every
+	// access to it, by whatever function, is made with that mutex held — a lookup next to a registration is a fatal
+	// "concurrent map read and map write", which no recover() turns into an error
+	{
+		consulted := map[string]bool{}
+		inCone := map[*ssa.Function]bool{}
+		for _, fn := range cone {
+			inCone[fn] = true
+		}
+		checkGuardedMapsCollect(p, func(owner string, fn *ssa.Function) {
+			if inCone[fn] {
+				consulted[owner] = true
+			}
+		})
+		checkGuardedMaps(c, "O12", func(owner string, fn *ssa.Function) bool { return consulted[owner] }, 2)
+	}
+	// O13 (shared as C07.R23): a failed read from the stream is the last one
+	checkFailedReadIsFinal(c, "O13", 8)
+	// O14 (shared as C20.Z14, C19.R17): a decode loop ends on the decoder's error
+	checkDecodeLoopEndsOnError(c, "O14", 6)
 	// O9 (shared with C20.Z1): the unchecked primitives are called only where the length is known — also in the client
 	c.withOnly("Z1", "O9", func() { runC20(c) })
 	// O10 (shared with C07.R1): what could not be decoded is not passed on (a nil or half-decoded packet crashes a worker)
@@ -752,6 +772,9 @@ func runC20(c *Ctx) {
 	checkResultsUsedOnlyWithoutError(c, "Z11")
 	checkShortInputIsReported(c, "Z12")
 	checkReplyErrorsConsumed(c, "Z13")
+	// Z14 (= C08.O14): a decode loop ends on the decoder's error — a VERSION or NAME reply with a damaged list must not
+	// keep the caller spinning
+	checkDecodeLoopEndsOnError(c, "Z14", 6)
 }
 
 // clientAxioms adds: data returned by clientConn.sendPacket with a nil error, and result.data of a
